@@ -19,6 +19,8 @@ pub enum Cert {
     WrongName,
     Untrusted,
     SelfSigned,
+    /// issued by the trusted CA for the IP address 127.0.0.1 only (not for the name localhost)
+    IpOnly,
 }
 
 #[derive(Clone, Debug, PartialEq)]
@@ -63,6 +65,9 @@ pub struct Setup {
     /// the URL names no host ("ldaps:///", "ldap:///"): the connection is handed in as a pre-opened TCP
     /// stream and the host to verify the certificate against is the documented default, localhost
     pub no_host_via_stream: bool,
+    /// the connection is handed in as a pre-opened TCP stream although the URL names a host: the
+    /// certificate is still checked against the URL's host, not against the stream's peer
+    pub via_stream: bool,
 }
 
 #[derive(Debug, Default, Clone)]
@@ -82,6 +87,7 @@ fn identity(cert: Cert) -> Result<native_tls::Identity, String> {
         Cert::WrongName => "wrongname",
         Cert::Untrusted => "untrusted",
         Cert::SelfSigned => "selfsigned",
+        Cert::IpOnly => "iponly",
     };
     let pem = std::fs::read(format!("{}/{}.pem", dir, name)).map_err(|e| e.to_string())?;
     let key = std::fs::read(format!("{}/{}.p8", dir, name)).map_err(|e| e.to_string())?;
@@ -262,6 +268,8 @@ async fn drain_clear(s: &mut TcpStream, tap: &Arc<Mutex<Tap>>) {
 struct Obs {
     establish: String,
     has_tls_flag_ops: Vec<String>,
+    /// message IDs reserved right after establishment and after the operations (hook H2)
+    reserved_ids: Vec<Vec<i32>>,
 }
 
 async fn client(setup: &Setup, port: u16) -> Obs {
@@ -276,17 +284,17 @@ async fn client(setup: &Setup, port: u16) -> Obs {
             _ => if setup.no_verify { s.set_no_tls_verify(true) } else { s },
         };
     }
-    if setup.no_host_via_stream {
+    if setup.no_host_via_stream || setup.via_stream {
         match std::net::TcpStream::connect(("127.0.0.1", port)) {
             Ok(st) => s = s.set_std_stream(ldap3::StdStream::Tcp(st)),
-            Err(e) => return Obs { establish: format!("Setup({})", e), has_tls_flag_ops: vec![] },
+            Err(e) => return Obs { establish: format!("Setup({})", e), has_tls_flag_ops: vec![], reserved_ids: vec![] },
         }
     } else if setup.via_clone {
         // (a pre-opened stream does not survive clone())
         s = s.clone();
     }
     let r = tokio::time::timeout(Duration::from_secs(12), Caught::new(LdapConnAsync::with_settings(s, &url))).await;
-    let mut o = Obs { establish: String::new(), has_tls_flag_ops: vec![] };
+    let mut o = Obs { establish: String::new(), has_tls_flag_ops: vec![], reserved_ids: vec![] };
     match r {
         Err(_) => o.establish = "Hung".into(),
         Ok(Err(p)) => o.establish = format!("Panic({})", p.site()),
@@ -294,6 +302,7 @@ async fn client(setup: &Setup, port: u16) -> Obs {
         Ok(Ok(Ok((conn, mut ldap)))) => {
             o.establish = "Ok".into();
             ldap3::drive!(conn);
+            o.reserved_ids.push(ldap.verif_id_table().1);
             // two binds: their message IDs are 2 and 3 (StartTLS used 1) or 1 and 2 (ldaps)
             for _ in 0..2 {
                 let r = tokio::time::timeout(Duration::from_secs(5), ldap.simple_bind("cn=x", "secret")).await;
@@ -303,6 +312,7 @@ async fn client(setup: &Setup, port: u16) -> Obs {
                     Err(_) => "Hung".into(),
                 });
             }
+            o.reserved_ids.push(ldap.verif_id_table().1);
             let _ = tokio::time::timeout(Duration::from_secs(2), ldap.unbind()).await;
         }
     }
@@ -321,6 +331,7 @@ fn matrix(rng: &mut Rng, reps: usize) -> Vec<Setup> {
                     Behaviour::Tls(Cert::WrongName),
                     Behaviour::Tls(Cert::Untrusted),
                     Behaviour::Tls(Cert::SelfSigned),
+                    Behaviour::Tls(Cert::IpOnly),
                     Behaviour::Refuse(*rng.pick(&refusals)),
                     Behaviour::Refuse(10),
                     Behaviour::RefuseThenTls(*rng.pick(&refusals)),
@@ -336,12 +347,27 @@ fn matrix(rng: &mut Rng, reps: usize) -> Vec<Setup> {
                     Behaviour::InjectDelayed,
                 ];
                 for b in bs.drain(..) {
-                    v.push(Setup { ldaps: false, starttls: true, no_verify, host_is_ip, behaviour: b, builder_order: rng.below(6) as u8, via_clone: rng.chance(1, 3), no_host_via_stream: !host_is_ip && rng.chance(1, 4) });
+                    let ip_only = b == Behaviour::Tls(Cert::IpOnly);
+                    v.push(Setup { ldaps: false, starttls: true, no_verify, host_is_ip, behaviour: b, builder_order: rng.below(6) as u8, via_clone: rng.chance(1, 3), no_host_via_stream: !host_is_ip && rng.chance(1, 4), via_stream: rng.chance(1, 4) });
+                    if ip_only {
+                        // both ways of opening the connection for the certificate that is valid for the peer's address only
+                        let mut other = v.last().unwrap().clone();
+                        other.via_stream = !other.via_stream;
+                        other.no_host_via_stream = false;
+                        v.push(other);
+                    }
                 }
                 // ldaps (with and without the StartTLS flag, which ldaps must ignore)
                 for &st in &[false, true] {
-                    for b in [Behaviour::Tls(Cert::Good), Behaviour::Tls(Cert::WrongName), Behaviour::Tls(Cert::Untrusted), Behaviour::Tls(Cert::SelfSigned), Behaviour::Close, Behaviour::Garbage] {
-                        v.push(Setup { ldaps: true, starttls: st, no_verify, host_is_ip, behaviour: b, builder_order: rng.below(6) as u8, via_clone: rng.chance(1, 3), no_host_via_stream: !host_is_ip && rng.chance(1, 4) });
+                    for b in [Behaviour::Tls(Cert::Good), Behaviour::Tls(Cert::WrongName), Behaviour::Tls(Cert::Untrusted), Behaviour::Tls(Cert::SelfSigned), Behaviour::Tls(Cert::IpOnly), Behaviour::Close, Behaviour::Garbage] {
+                        let ip_only = b == Behaviour::Tls(Cert::IpOnly);
+                        v.push(Setup { ldaps: true, starttls: st, no_verify, host_is_ip, behaviour: b, builder_order: rng.below(6) as u8, via_clone: rng.chance(1, 3), no_host_via_stream: !host_is_ip && rng.chance(1, 4), via_stream: rng.chance(1, 4) });
+                        if ip_only {
+                            let mut other = v.last().unwrap().clone();
+                            other.via_stream = !other.via_stream;
+                            other.no_host_via_stream = false;
+                            v.push(other);
+                        }
                     }
                 }
             }
@@ -396,18 +422,27 @@ fn judge(setup: &Setup, obs: &Obs, tap: &Tap, rep: &mut Report) {
             }
         }
     }
+    // the URL's host (localhost when the URL names none) is what the certificate must be valid for,
+    // however the connection was opened
+    let url_host_is_ip = setup.host_is_ip && !setup.no_host_via_stream;
+    let trusted_for_host = |c: Cert| match c {
+        Cert::Good => true,
+        Cert::IpOnly => url_host_is_ip,
+        _ => false,
+    };
     // ---- establishment outcome ----
     let must_fail = match &setup.behaviour {
         Behaviour::Refuse(_) | Behaviour::RefuseThenTls(_) | Behaviour::Garbage | Behaviour::WrongResponse | Behaviour::MalformedThenTls(_) | Behaviour::Close => true,
-        Behaviour::Tls(c) => *c != Cert::Good && !setup.no_verify,
+        Behaviour::Tls(c) => !trusted_for_host(*c) && !setup.no_verify,
         Behaviour::InjectSameSegment(_) | Behaviour::InjectDelayed => false,
     };
-    let must_succeed = matches!(&setup.behaviour, Behaviour::Tls(c) if *c == Cert::Good || setup.no_verify);
+    let must_succeed = matches!(&setup.behaviour, Behaviour::Tls(c) if trusted_for_host(*c) || setup.no_verify);
     let bk = match &setup.behaviour {
         Behaviour::Tls(Cert::Good) => "trusted-certificate".to_string(),
         Behaviour::Tls(Cert::WrongName) => "wrong-name-certificate".into(),
         Behaviour::Tls(Cert::Untrusted) => "untrusted-ca-certificate".into(),
         Behaviour::Tls(Cert::SelfSigned) => "self-signed-certificate".into(),
+        Behaviour::Tls(Cert::IpOnly) => if url_host_is_ip { "ip-only-certificate-for-an-ip-url".into() } else { "ip-only-certificate-for-a-host-name".into() },
         Behaviour::Refuse(_) => "starttls-refused".into(),
         Behaviour::RefuseThenTls(rc) => if *rc == 10 { "starttls-refused-with-referral-code-but-server-handshakes".into() } else { "starttls-refused-but-server-handshakes".into() },
         Behaviour::Garbage => "garbage-response".into(),
@@ -450,6 +485,41 @@ fn judge(setup: &Setup, obs: &Obs, tap: &Tap, rep: &mut Report) {
     rep.case(Some(fnv(format!("{:?}", setup).as_bytes())));
 }
 
+/// For C13: message IDs still reserved on a connection established with StartTLS (whose setup runs one
+/// operation through the driver's single-operation mode) and with ldaps, right after establishment and
+/// after two completed binds. Returns (mode, outcome, tables).
+pub fn reserved_ids_probe() -> Vec<(String, String, Vec<Vec<i32>>)> {
+    let rt = tokio::runtime::Builder::new_multi_thread().worker_threads(2).enable_all().build().expect("rt");
+    let out = rt.block_on(async {
+        let mut out = vec![];
+        for ldaps in [false, true] {
+            let setup = Setup { ldaps, starttls: !ldaps, no_verify: false, host_is_ip: false, behaviour: Behaviour::Tls(Cert::Good), builder_order: 0, via_clone: false, no_host_via_stream: false, via_stream: false };
+            let mode = if ldaps { "ldaps".to_string() } else { "ldap + StartTLS".to_string() };
+            let l = match TcpListener::bind("127.0.0.1:0").await {
+                Ok(l) => l,
+                Err(e) => {
+                    out.push((mode, format!("Setup({})", e), vec![]));
+                    continue;
+                }
+            };
+            let port = l.local_addr().unwrap().port();
+            let tap = Arc::new(Mutex::new(Tap::default()));
+            let (tap2, s2) = (tap.clone(), setup.clone());
+            let srv = tokio::spawn(async move {
+                if let Ok(Ok((s, _))) = tokio::time::timeout(Duration::from_secs(10), l.accept()).await {
+                    handle(s, s2, tap2).await;
+                }
+            });
+            let obs = client(&setup, port).await;
+            let _ = tokio::time::timeout(Duration::from_secs(8), srv).await;
+            out.push((mode, obs.establish.clone(), obs.reserved_ids.clone()));
+        }
+        out
+    });
+    rt.shutdown_background();
+    out
+}
+
 /// For C18 ("a missing host meaning localhost"): TLS establishment through `ldaps:///` and through
 /// `ldap:///` + StartTLS against a server whose trusted certificate is issued to localhost.
 /// Returns (mode, outcome of establishment).
@@ -458,7 +528,7 @@ pub fn missing_host_probe() -> Vec<(String, String)> {
     let out = rt.block_on(async {
         let mut out = vec![];
         for ldaps in [true, false] {
-            let setup = Setup { ldaps, starttls: !ldaps, no_verify: false, host_is_ip: false, behaviour: Behaviour::Tls(Cert::Good), builder_order: 0, via_clone: false, no_host_via_stream: true };
+            let setup = Setup { ldaps, starttls: !ldaps, no_verify: false, host_is_ip: false, behaviour: Behaviour::Tls(Cert::Good), builder_order: 0, via_clone: false, no_host_via_stream: true, via_stream: false };
             let l = match TcpListener::bind("127.0.0.1:0").await {
                 Ok(l) => l,
                 Err(e) => {
@@ -534,6 +604,62 @@ pub fn matrix_lane(ctx: &Ctx) -> Report {
         }
         out
     });
+    // TLS was requested but the caller hands in a pre-opened Unix stream (over which the library
+    // speaks cleartext): establishment has to fail and nothing may be written to the stream
+    let unix_results: Vec<(String, String, Vec<u8>)> = rt.block_on(async {
+        use std::io::Read;
+        let mut out = vec![];
+        for (url, starttls) in [("ldaps://localhost", false), ("ldap://localhost", true), ("ldaps://localhost", true), ("ldaps:///", false)] {
+            let (a, mut b) = match std::os::unix::net::UnixStream::pair() {
+                Ok(p) => p,
+                Err(e) => {
+                    out.push((format!("{} starttls={}", url, starttls), format!("Setup({})", e), vec![]));
+                    continue;
+                }
+            };
+            let mut s = LdapConnSettings::new().set_conn_timeout(Duration::from_secs(3)).set_std_stream(ldap3::StdStream::Unix(a));
+            if starttls {
+                s = s.set_starttls(true);
+            }
+            let r = tokio::time::timeout(Duration::from_secs(8), Caught::new(LdapConnAsync::with_settings(s, url))).await;
+            let outcome = match r {
+                Err(_) => "Hung".to_string(),
+                Ok(Err(p)) => format!("Panic({})", p.site()),
+                Ok(Ok(Err(e))) => format!("Err({})", err_class(&e)),
+                Ok(Ok(Ok((conn, mut ldap)))) => {
+                    ldap3::drive!(conn);
+                    let _ = tokio::time::timeout(Duration::from_millis(500), ldap.simple_bind("cn=x", "secret-over-unix")).await;
+                    "Ok".to_string()
+                }
+            };
+            let _ = b.set_nonblocking(true);
+            let mut seen = vec![];
+            let mut tmp = [0u8; 4096];
+            while let Ok(n) = b.read(&mut tmp) {
+                if n == 0 {
+                    break;
+                }
+                seen.extend_from_slice(&tmp[..n]);
+            }
+            out.push((format!("{} starttls={}", url, starttls), outcome, seen));
+        }
+        out
+    });
+    for (what, outcome, seen) in &unix_results {
+        let replay = json!({"lane":"matrix","case":"pre-opened-unix-stream","what":what});
+        if outcome.starts_with("Setup(") || outcome == "Hung" {
+            rep.inconclusive(format!("pre-opened Unix stream, {}: {}", what, outcome));
+            continue;
+        }
+        if outcome == "Ok" {
+            rep.violation("C17:pre-opened-unix-stream:usable-cleartext-handle-returned-although-tls-was-requested", format!("{}: establishment returned a handle; bytes seen on the stream: {}", what, ber::hex(&seen[..seen.len().min(60)])), replay.clone());
+        }
+        if !seen.is_empty() && seen[0] != 0x16 {
+            rep.violation("C17:pre-opened-unix-stream:cleartext-bytes-written-although-tls-was-requested", format!("{} ({}): {}", what, outcome, ber::hex(&seen[..seen.len().min(60)])), replay.clone());
+        }
+        rep.count("pre_opened_unix_stream_cases", 1);
+        rep.case(Some(fnv(what.as_bytes())));
+    }
     rt.shutdown_background();
     for (setup, obs, tap) in &results {
         judge(setup, obs, tap, &mut rep);
